@@ -1,4 +1,9 @@
 import WfProofs.PolicyLemmas
+import WfProofs.PolicyBudget
+import WfProofs.RunnerAcct
+import WfProofs.EngineFork
+import WfProofs.EngineForkUnrepaired
+import WfModel.GenRetryAcct
 import WfProofs.EngineReduce
 import WfProofs.EngineWaitUnrepaired
 /-!
@@ -102,20 +107,24 @@ failing step — with `attempts + 1`, the unchanged `first_attempt_at`, the exce
 and the lineage's recovery counts -/
 theorem C05_retry_requeue (cfg : Cfg) (pol : Policy) (step : Nat) (tickEv : Ev) (dc : Bool) (acc : ResAcc)
     (exc : Nat) (failedAt : Int) (c : StepCfg) (hc : cfg.find step = some c) (hretry : c.hasRetry = true) (d : Nat)
-    (hp : pol step (failedAt - acc.exec.firstAt) (acc.exec.attempts + 1) exc = .retry d) :
+    (hp : pol step (failedAt - acc.exec.firstAt) (acc.exec.attempts + 1) exc = .retry d)
+    -- (the failure of an execution that an earlier result of the same list already scheduled to run again is skipped:
+    -- `C05_failure_after_scheduled_rerun_skipped`)
+    (hsip : acc.stillInProgress = false) :
     (applyRes cfg pol step tickEv dc acc (.failed exc failedAt)).cmds = acc.cmds ++
       [.queueEvent { ev := tickEv, attempts := some (acc.exec.attempts + 1), firstAt := some acc.exec.firstAt,
                      lastExc := some exc, lastFailedAt := some failedAt, rc := acc.exec.rc } (some step) (some d)] := by
-  simp [applyRes, retryDecision, hc, hretry, hp]
+  simp [applyRes, retryDecision, hc, hretry, hp, hsip]
 
 /-- a step without a retry policy, or whose policy gives up, is not retried: with no
 handler the run fails and the failure event reports `attempts + 1` and the elapsed time -/
 theorem C05_failure_report (cfg : Cfg) (pol : Policy) (step : Nat) (tickEv : Ev) (dc : Bool) (acc : ResAcc)
     (exc : Nat) (failedAt : Int) (hnoh : handlerOwner cfg step = none)
-    (hp : retryDecision cfg pol step (failedAt - acc.exec.firstAt) (acc.exec.attempts + 1) exc = .stop) :
+    (hp : retryDecision cfg pol step (failedAt - acc.exec.firstAt) (acc.exec.attempts + 1) exc = .stop)
+    (hsip : acc.stillInProgress = false) :
     (applyRes cfg pol step tickEv dc acc (.failed exc failedAt)).cmds = acc.cmds ++
       [.publish (.failed step exc (acc.exec.attempts + 1) (failedAt - acc.exec.firstAt)), .failWorkflow step exc] := by
-  simp [applyRes, hp, hnoh]
+  simp [applyRes, hp, hnoh, hsip]
 
 /-- a re-queued retry, once started, runs with `retry_number = attempts`, the original
 `first_attempt_at` and the previous exception -/
@@ -215,3 +224,656 @@ example : C05.executions { retry := none, wait := waitFixed 0, stop := stopAfter
     (fun _ => 0) 7 (fun _ => 0) 10 1 = 3 := by
   have := C05_attempt_budget none (waitFixed 0) 3 (fun _ => 0) 7 (fun _ => 0) (by simp) 10 (by omega)
   simpa using this
+
+/-! ## composed policies of any nesting depth, every clock
+
+`stop_any` / `stop_all` / `|` / `&` nest (`Policy.STree`); the retry loop of an always-failing invocation
+is `C05.executions`.  For EVERY composed policy the number of executions is the least failure number at
+which `next` refuses; for trees the attempt limits bound it from above on every clock (`STree.cap`:
+`stop_any` = least operand, `stop_all` = greatest) and the tree's `STree.lo` from below, with equality
+whenever the two agree (e.g. every tree over attempt limits and `stop_never`). -/
+
+theorem C05.executions_eq_runs (p : Composed) (el : Nat → Rat) (e : Nat) (u : Nat → Rat) :
+    ∀ (fuel k : Nat), C05.executions p el e u fuel k = Policy.runs p el e u fuel k
+  | 0, k => rfl
+  | fuel + 1, k => by
+    simp only [C05.executions, Policy.runs]
+    cases p.next (el k) k e (u k) with
+    | none => rfl
+    | some _ => exact C05.executions_eq_runs p el e u fuel (k + 1)
+
+/-- **every composed policy**: an always-failing invocation is executed `r` times where `r` is the LEAST
+failure number at which `next` answers `None`: every earlier failure was granted a retry, and (unless the
+observation window `fuel` ended first) the `r`-th one was refused -/
+theorem C05_executions_least (p : Composed) (el : Nat → Rat) (e : Nat) (u : Nat → Rat) (fuel : Nat) :
+    1 ≤ C05.executions p el e u fuel 1 ∧ C05.executions p el e u fuel 1 ≤ fuel + 1 ∧
+    (∀ j, 1 ≤ j → j < C05.executions p el e u fuel 1 → (p.next (el j) j e (u j)).isSome = true) ∧
+    (C05.executions p el e u fuel 1 ≤ fuel →
+      p.next (el (C05.executions p el e u fuel 1)) (C05.executions p el e u fuel 1) e (u (C05.executions p el e u fuel 1)) = none) := by
+  rw [C05.executions_eq_runs]
+  have hb := Policy.runs_bounds p el e u fuel 1
+  refine ⟨hb.1, by omega, fun j h1 h2 => Policy.runs_retried p el e u fuel 1 j h1 h2, fun h => ?_⟩
+  exact Policy.runs_stopped p el e u fuel 1 (by omega)
+
+/-- **attempt limits cap the executions on every clock**: whatever else the stop tree contains (delay limits,
+`stop_never`, any nesting) and whatever the error, wait strategy and elapsed times: at most `max(cap,1)` executions -/
+theorem C05_attempt_cap_tree (retry : Option Cond) (w : Wait) (t : STree) (n : Nat) (hcap : t.cap = some n)
+    (el : Nat → Rat) (e : Nat) (u : Nat → Rat) (fuel : Nat) :
+    C05.executions { retry := retry, wait := w, stop := t.eval } el e u fuel 1 ≤ max n 1 := by
+  rw [C05.executions_eq_runs]
+  apply Policy.runs_le_of_stop _ el e u (max n 1) _ fuel 1 (by omega)
+  apply Policy.next_none_of_stop
+  exact STree.cap_sound _ _ _ t ⟨n, hcap, by omega⟩
+
+/-- **no tree stops a retryable failure before its lower bound**: at least `max(lo,1)` executions (as far as the
+window reaches); a tree without finite lower bound (`stop_never` on every `any`-path) never gives up -/
+theorem C05_attempt_floor_tree (retry : Option Cond) (w : Wait) (t : STree) (el : Nat → Rat) (e : Nat) (u : Nat → Rat)
+    (hr : ∀ r, retry = some r → r e = true) (fuel : Nat) :
+    (∀ m, t.lo = some m → min (max m 1) (fuel + 1) ≤ C05.executions { retry := retry, wait := w, stop := t.eval } el e u fuel 1) ∧
+    (t.lo = none → C05.executions { retry := retry, wait := w, stop := t.eval } el e u fuel 1 = fuel + 1) := by
+  rw [C05.executions_eq_runs]
+  have hnext : ∀ j, (∀ m, t.lo = some m → j < m) →
+      (({ retry := retry, wait := w, stop := t.eval } : Composed).next (el j) j e (u j)).isSome = true := by
+    intro j hj
+    rw [Policy.next_retryable _ _ _ _ _ hr]
+    by_cases hs : t.eval j (el j) (w j (u j)) = true
+    · obtain ⟨m, hm, hmj⟩ := STree.lo_sound _ _ _ t hs
+      have := hj m hm; omega
+    · simp [hs]
+  constructor
+  · intro m hm
+    apply Policy.runs_ge_of_retry _ el e u _ fuel 1 _ (by omega) (by omega)
+    intro j h1 h2
+    apply hnext j
+    intro m' hm'; rw [hm] at hm'; injection hm' with hm'; omega
+  · intro hnone
+    have hb := Policy.runs_bounds ({ retry := retry, wait := w, stop := t.eval } : Composed) el e u fuel 1
+    have := Policy.runs_ge_of_retry ({ retry := retry, wait := w, stop := t.eval } : Composed) el e u (fuel + 1) fuel 1
+      (fun j _ _ => hnext j (fun m hm => by rw [hnone] at hm; cases hm)) (by omega) (by omega)
+    omega
+
+/-- **exact budget of a nested stop tree**: when the two bounds agree (`n`) a retryable, always-failing invocation
+is executed exactly `max(n,1)` times on every clock, with any wait strategy -/
+theorem C05_attempt_budget_tree (retry : Option Cond) (w : Wait) (t : STree) (n : Nat) (hcap : t.cap = some n)
+    (hlo : t.lo = some n) (el : Nat → Rat) (e : Nat) (u : Nat → Rat) (hr : ∀ r, retry = some r → r e = true)
+    (fuel : Nat) (hf : n ≤ fuel) :
+    C05.executions { retry := retry, wait := w, stop := t.eval } el e u fuel 1 = max n 1 := by
+  have h1 := C05_attempt_cap_tree retry w t n hcap el e u fuel
+  have h2 := (C05_attempt_floor_tree retry w t el e u hr fuel).1 n hlo
+  omega
+
+/-- **the retry loop under any stop tree, on the clock it is handed**: failures `1 … r-1` found the tree false at
+the elapsed time and upcoming sleep of that moment, failure `r` found it true -/
+theorem C05_stop_tree_run (retry : Option Cond) (w : Wait) (t : STree) (el : Nat → Rat) (e : Nat) (u : Nat → Rat)
+    (hr : ∀ r, retry = some r → r e = true) (fuel : Nat) :
+    (∀ j, 1 ≤ j → j < C05.executions { retry := retry, wait := w, stop := t.eval } el e u fuel 1 →
+        t.eval j (el j) (w j (u j)) = false) ∧
+    (C05.executions { retry := retry, wait := w, stop := t.eval } el e u fuel 1 ≤ fuel →
+        t.eval (C05.executions { retry := retry, wait := w, stop := t.eval } el e u fuel 1)
+          (el (C05.executions { retry := retry, wait := w, stop := t.eval } el e u fuel 1))
+          (w (C05.executions { retry := retry, wait := w, stop := t.eval } el e u fuel 1)
+             (u (C05.executions { retry := retry, wait := w, stop := t.eval } el e u fuel 1))) = true) := by
+  obtain ⟨_, _, h3, h4⟩ := C05_executions_least { retry := retry, wait := w, stop := t.eval } el e u fuel
+  constructor
+  · intro j h1 h2
+    have := h3 j h1 h2
+    rw [Policy.next_retryable _ _ _ _ _ hr] at this
+    by_cases hs : t.eval j (el j) (w j (u j)) = true
+    · simp [hs] at this
+    · simpa using hs
+  · intro hle
+    have := h4 hle
+    rw [Policy.next_retryable _ _ _ _ _ hr] at this
+    generalize C05.executions { retry := retry, wait := w, stop := t.eval } el e u fuel 1 = r at this ⊢
+    by_cases hs : t.eval r (el r) (w r (u r)) = true
+    · exact hs
+    · simp [hs] at this
+
+/-- **`stop_after_delay(d)` over a whole run**: the invocation keeps being retried while the elapsed time handed to
+the policy is `< d` and stops at the first failure whose elapsed time is `≥ d` -/
+theorem C05_delay_budget_run (retry : Option Cond) (w : Wait) (d : Rat) (el : Nat → Rat) (e : Nat) (u : Nat → Rat)
+    (hr : ∀ r, retry = some r → r e = true) (fuel : Nat) :
+    (∀ j, 1 ≤ j → j < C05.executions { retry := retry, wait := w, stop := stopAfterDelay d } el e u fuel 1 → el j < d) ∧
+    (C05.executions { retry := retry, wait := w, stop := stopAfterDelay d } el e u fuel 1 ≤ fuel →
+        d ≤ el (C05.executions { retry := retry, wait := w, stop := stopAfterDelay d } el e u fuel 1)) := by
+  have h := C05_stop_tree_run retry w (.leaf (.afterDelay d)) el e u hr fuel
+  simp only [STree.eval, SLeaf.eval] at h
+  constructor
+  · intro j h1 h2
+    have := h.1 j h1 h2
+    simp only [stopAfterDelay, decide_eq_false_iff_not, ge_iff_le] at this
+    exact Rat.not_le.mp this
+  · intro hle
+    have := h.2 hle
+    simpa [stopAfterDelay] using this
+
+/-- **a budget once exhausted stays exhausted**: a tree of attempt and delay limits (any nesting, no
+`stop_before_delay`) that holds at `(k, elapsed)` holds at every later failure count and elapsed time, whatever
+the upcoming sleeps -/
+theorem C05_budget_monotone (t : STree) (ht : t.noBefore = true) (k k' : Nat) (el el' up up' : Rat) (hk : k ≤ k')
+    (he : el ≤ el') (h : t.eval k el up = true) : t.eval k' el' up' = true :=
+  STree.mono k k' el el' up up' hk he t ht h
+
+/-- `stop_after_attempt(q)` for ANY number `q` (the constructor does not insist on an int): `⌈q⌉` failures -/
+theorem C05_attempt_threshold (q : Rat) (k : Nat) (el up : Rat) : stopAfterAttempt q k el up = decide (Policy.thr q ≤ k) :=
+  Policy.stopAfterAttempt_eq q k el up
+
+/-! Non-vacuity (nested trees) -/
+/-- `stop_any(stop_all(stop_after_attempt(5), stop_after_attempt(3)), stop_after_attempt(7), stop_never())` -/
+def C05.tree1 : STree := .any [.all [.leaf (.afterAttempt 5), .leaf (.afterAttempt 3)], .leaf (.afterAttempt 7), .leaf .never]
+/-- `(stop_after_attempt(4) | stop_after_delay(10)) & stop_after_attempt(2)` -/
+def C05.tree2 : STree := .all [.any [.leaf (.afterAttempt 4), .leaf (.afterDelay 10)], .leaf (.afterAttempt 2)]
+example : C05.tree1.cap = some 5 ∧ C05.tree1.lo = some 5 := by decide
+example : C05.tree2.cap = some 4 ∧ C05.tree2.lo = some 2 ∧ C05.tree2.noBefore = true := by decide
+example : C05.executions { retry := none, wait := waitFixed 1, stop := C05.tree1.eval } (fun k => k) 7 (fun _ => 0) 20 1 = 5 := by
+  have := C05_attempt_budget_tree none (waitFixed 1) C05.tree1 5 (by decide) (by decide) (fun k => k) 7 (fun _ => 0) (by simp) 20 (by omega)
+  simpa using this
+-- a delay limit inside: between the bounds, decided by the clock (here 1 s per failure … 12 s per failure)
+example : C05.executions { retry := none, wait := waitFixed 1, stop := C05.tree2.eval } (fun k => k) 7 (fun _ => 0) 20 1 = 4 := by decide
+example : C05.executions { retry := none, wait := waitFixed 1, stop := C05.tree2.eval } (fun k => 12 * k) 7 (fun _ => 0) 20 1 = 2 := by decide +kernel
+example : Policy.thr (5 / 2) = 3 := by decide +kernel
+example : C05.executions { retry := none, wait := waitFixed 1, stop := stopAfterDelay 5 } (fun k => 2 * k) 7 (fun _ => 0) 20 1 = 3 := by decide +kernel
+
+/-! ## every reachable state of the runner, every schedule
+
+`Engine.AcctInv` (`WfProofs/EngineAcct.lean`, `RunnerAcct.lean`): every attempt record anywhere — queued, in progress, kept
+in a waiter, in the tick buffer, the mailbox, the timer heap — with retry number `k ≠ 0` carries the first-attempt time, the
+time and exception of its last failure, ordered on the clock, and **was granted by the step's policy at exactly these
+numbers**; every `WorkflowFailedEvent` on the stream and every `StepFailedEvent` the reducer creates reports
+`attempts = k + 1`, `elapsed = failed_at − first_attempt_at ≥ 0` and was issued because the policy refused at exactly these
+numbers.  Preserved by every action of the runner from a fresh or resumed start, for every configuration and policy
+(clock assumption: failures are stamped with the runner's clock; other parties send fresh attempts). -/
+
+/-- the start of a fresh run is accounted for -/
+theorem C05_accounting_init (cfg : Cfg) (pol : Policy) (now : Int) (hnow : 0 < now) (start : Option Ev) (timeout : Option Nat) :
+    AcctInv cfg pol (Runner.init cfg initState now start timeout) :=
+  init_acct cfg pol initState now hnow (acctSt_init cfg pol now) start timeout
+
+/-- … and so is a run resumed from any accounted state (a serialised context) -/
+theorem C05_accounting_init_resumed (cfg : Cfg) (pol : Policy) (st0 : State) (now : Int) (hnow : 0 < now)
+    (h0 : AcctSt cfg pol now st0) (start : Option Ev) (timeout : Option Nat) :
+    AcctInv cfg pol (Runner.init cfg st0 now start timeout) :=
+  init_acct cfg pol st0 now hnow h0 start timeout
+
+/-- **the accounting invariant holds in every reachable state**, for every admissible schedule -/
+theorem C05_accounting_invariant (cfg : Cfg) (pol : Policy) (r0 : Runner) (h0 : AcctInv cfg pol r0) (acts : List Act)
+    (hs : AcctSched cfg pol r0 acts) : AcctInv cfg pol (Runner.run cfg pol r0 acts) :=
+  run_acct cfg pol acts r0 hs h0
+
+/-- **`retry_info()` material in every reachable state**: an in-progress invocation with retry number `0` has no previous
+exception and no failure time; one with retry number `k ≠ 0` has both, its first attempt began at a positive clock reading
+not after that failure, the failure is not in the future, and the step's policy granted exactly this retry -/
+theorem C05_retry_records_wellformed (cfg : Cfg) (pol : Policy) (r0 : Runner) (h0 : AcctInv cfg pol r0) (acts : List Act)
+    (hs : AcctSched cfg pol r0 acts) (s : Nat) (ip : InProg)
+    (hip : ip ∈ ((Runner.run cfg pol r0 acts).st.workers s).inProg) :
+    0 < ip.firstAt ∧ ip.firstAt ≤ (Runner.run cfg pol r0 acts).now ∧
+    (ip.attempts = 0 → ip.lastExc = none ∧ ip.lastFailedAt = none) ∧
+    (ip.attempts ≠ 0 → ∃ tf exc d, ip.lastFailedAt = some tf ∧ ip.lastExc = some exc ∧ ip.firstAt ≤ tf ∧
+        tf ≤ (Runner.run cfg pol r0 acts).now ∧ retryDecision cfg pol s (tf - ip.firstAt) ip.attempts exc = .retry d) := by
+  have h := ((C05_accounting_invariant cfg pol r0 h0 acts hs).st s).2.1 ip hip
+  have h1 := h.1 ip.firstAt rfl
+  refine ⟨h1.1, h1.2, h.2.1, fun hk => ?_⟩
+  obtain ⟨t0, tf, exc, e1, e2, e3, e4, e5, e6⟩ := h.2.2 hk
+  simp only [InProg.acct, Option.some.injEq] at e1 e2 e3 e6
+  subst e1
+  obtain ⟨d, hd⟩ := e6.head.2.2
+  exact ⟨tf, exc, d, e2, e3, e4, e5, hd⟩
+
+/-- **retry numbers are never skipped, in any reachable state**: an in-progress invocation with retry number `k` has behind it
+granted retries numbered `1, 2, …, k` — each asked at a non-negative elapsed time not larger than the one of its last
+failure — so `retry_info().retry_number` counts failures the policy was really asked about, one by one -/
+theorem C05_retry_numbers_consecutive (cfg : Cfg) (pol : Policy) (r0 : Runner) (h0 : AcctInv cfg pol r0) (acts : List Act)
+    (hs : AcctSched cfg pol r0 acts) (s : Nat) (ip : InProg)
+    (hip : ip ∈ ((Runner.run cfg pol r0 acts).st.workers s).inProg) (j : Nat) (h1 : 1 ≤ j) (h2 : j ≤ ip.attempts) :
+    ∃ tf el exc d, ip.lastFailedAt = some tf ∧ 0 ≤ el ∧ el ≤ tf - ip.firstAt ∧ retryDecision cfg pol s el j exc = .retry d := by
+  have h := ((C05_accounting_invariant cfg pol r0 h0 acts hs).st s).2.1 ip hip
+  have hk : ip.acct.k ≠ 0 := by simp only [InProg.acct]; omega
+  obtain ⟨t0, tf, exc, e1, e2, e3, e4, e5, e6⟩ := h.2.2 hk
+  simp only [InProg.acct, Option.some.injEq] at e1 e2 e6
+  subst e1
+  obtain ⟨el, exc', d, a1, a2, a3⟩ := e6.all j h1 h2
+  exact ⟨tf, el, exc', d, e2, a1, a2, a3⟩
+
+/-- … and a `WorkflowFailedEvent` reporting `a` attempts stands at the end of granted retries `1, …, a − 1` -/
+theorem C05_reported_attempts_consecutive (cfg : Cfg) (pol : Policy) (r0 : Runner) (h0 : AcctInv cfg pol r0) (acts : List Act)
+    (hs : AcctSched cfg pol r0 acts) (s exc a : Nat) (el : Int)
+    (hp : Pub.failed s exc a el ∈ (Runner.run cfg pol r0 acts).stream) (j : Nat) (h1 : 1 ≤ j) (h2 : j < a) :
+    (∃ el' exc' d, 0 ≤ el' ∧ el' ≤ el ∧ retryDecision cfg pol s el' j exc' = .retry d) ∧
+      ∀ d, retryDecision cfg pol s el a exc ≠ .retry d := by
+  have hr : FailRep cfg pol s exc a el := (C05_accounting_invariant cfg pol r0 h0 acts hs).stream _ hp
+  refine ⟨?_, hr.2.2.1⟩
+  obtain ⟨el', exc', hle, hg⟩ := hr.2.2.2 (by omega)
+  obtain ⟨el'', exc'', d, a1, a2, a3⟩ := hg.all j h1 (by omega)
+  exact ⟨el'', exc'', d, a1, by omega, a3⟩
+
+/-! ### M1 × M2: composed policies as the engine's oracle -/
+
+/-- the engine-side oracle of composed policies: step `s` has policy `p s`; the jitter draw of step `s` at failure `k` is
+`u s k` (the seed is `sha256(run_id:step:failures)`); the delay is rounded to the model's integral seconds by `rd` -/
+def C05.oracle (p : Nat → Composed) (u : Nat → Nat → Rat) (rd : Rat → Nat) : Engine.Policy :=
+  fun s el k e => match (p s).next (el : Rat) k e (u s k) with | none => .stop | some d => .retry (rd d)
+
+theorem C05.oracle_granted {cfg : Cfg} {p : Nat → Composed} {u : Nat → Nat → Rat} {rd : Rat → Nat} {s : Nat} {el : Int}
+    {k exc d : Nat} (h : retryDecision cfg (C05.oracle p u rd) s el k exc = .retry d) :
+    ((p s).next (el : Rat) k exc (u s k)).isSome = true := by
+  unfold retryDecision at h
+  split at h
+  · split at h
+    · simp only [C05.oracle] at h
+      split at h
+      · cases h
+      · rename_i hn; simp [hn]
+    · cases h
+  · cases h
+
+theorem C05.oracle_refused {cfg : Cfg} {p : Nat → Composed} {u : Nat → Nat → Rat} {rd : Rat → Nat} {s : Nat} {el : Int}
+    {k exc : Nat} {c : StepCfg} (hc : cfg.find s = some c) (hr : c.hasRetry = true)
+    (h : ∀ d, retryDecision cfg (C05.oracle p u rd) s el k exc ≠ .retry d) :
+    (p s).next (el : Rat) k exc (u s k) = none := by
+  simp only [retryDecision, hc, hr, ↓reduceIte, C05.oracle] at h
+  cases hn : (p s).next (el : Rat) k exc (u s k) with
+  | none => rfl
+  | some d => rw [hn] at h; exact absurd rfl (h (rd d))
+
+/-- a granted retry lies below every attempt cap of the step's stop tree -/
+theorem C05.granted_lt_cap {cfg : Cfg} {p : Nat → Composed} {u : Nat → Nat → Rat} {rd : Rat → Nat} {s : Nat} {el : Int}
+    {k exc d : Nat} {t : STree} {n : Nat} (hstop : (p s).stop = t.eval) (hcap : t.cap = some n)
+    (h : retryDecision cfg (C05.oracle p u rd) s el k exc = .retry d) : k < n := by
+  have hg := C05.oracle_granted h
+  apply Decidable.byContradiction
+  intro hk
+  have hs : (p s).stop k (el : Rat) ((p s).wait k (u s k)) = true := by
+    rw [hstop]; exact STree.cap_sound _ _ _ t ⟨n, hcap, by omega⟩
+  rw [Policy.next_none_of_stop _ _ _ _ _ hs] at hg
+  cases hg
+
+theorem C05.recOk_lt_cap {cfg : Cfg} {p : Nat → Composed} {u : Nat → Nat → Rat} {rd : Rat → Nat} {s : Nat} {now : Int}
+    {t : STree} {n : Nat} (hstop : (p s).stop = t.eval) (hcap : t.cap = some n) {r : Acct}
+    (h : RecOk cfg (C05.oracle p u rd) now s r) : r.k < max n 1 := by
+  by_cases hk : r.k = 0
+  · omega
+  · obtain ⟨t0, tf, exc, _, _, _, _, _, e6⟩ := h.2.2 hk
+    obtain ⟨d, hd⟩ := e6.head.2.2
+    have := C05.granted_lt_cap hstop hcap hd
+    omega
+
+/-- **the attempt budget is never exceeded, anywhere, ever**: if the stop tree of step `s` (any nesting, any other
+limits inside) has attempt cap `n`, then in every reachable state every in-progress invocation of `s` runs with
+`retry_number < max(n,1)`, so does every queued attempt, every record kept in a waiter and every retry scheduled on the
+timer heap, and every `WorkflowFailedEvent` for `s` reports at most `max(n,1)` attempts -/
+theorem C05_budget_never_exceeded (cfg : Cfg) (p : Nat → Composed) (u : Nat → Nat → Rat) (rd : Rat → Nat) (r0 : Runner)
+    (h0 : AcctInv cfg (C05.oracle p u rd) r0) (acts : List Act) (hs : AcctSched cfg (C05.oracle p u rd) r0 acts)
+    (s : Nat) (t : STree) (n : Nat) (hstop : (p s).stop = t.eval) (hcap : t.cap = some n) :
+    (∀ ip ∈ ((Runner.run cfg (C05.oracle p u rd) r0 acts).st.workers s).inProg, ip.attempts < max n 1) ∧
+    (∀ a ∈ ((Runner.run cfg (C05.oracle p u rd) r0 acts).st.workers s).queue, orNat a.attempts 0 < max n 1) ∧
+    (∀ w ∈ ((Runner.run cfg (C05.oracle p u rd) r0 acts).st.workers s).waiters, w.attempts < max n 1) ∧
+    (∀ tm ∈ (Runner.run cfg (C05.oracle p u rd) r0 acts).heap, ∀ att, tm.tick = .addEvent att (some s) →
+        orNat att.attempts 0 < max n 1) ∧
+    (∀ exc a el, Pub.failed s exc a el ∈ (Runner.run cfg (C05.oracle p u rd) r0 acts).stream → a ≤ max n 1) := by
+  have h := C05_accounting_invariant cfg (C05.oracle p u rd) r0 h0 acts hs
+  refine ⟨fun ip hip => C05.recOk_lt_cap hstop hcap ((h.st s).2.1 ip hip),
+    fun a ha => C05.recOk_lt_cap hstop hcap ((h.st s).1 a ha),
+    fun w hw => C05.recOk_lt_cap hstop hcap ((h.st s).2.2 w hw), ?_, ?_⟩
+  · intro tm htm att hatt
+    have h1 := (h.heap tm htm).1
+    rw [hatt] at h1
+    exact C05.recOk_lt_cap hstop hcap (h1 s (Or.inr rfl))
+  · intro exc a el hp
+    have h1 : FailRep cfg (C05.oracle p u rd) s exc a el := h.stream _ hp
+    by_cases ha : a = 1
+    · omega
+    · obtain ⟨el', exc', _, hg⟩ := h1.2.2.2 ha
+      obtain ⟨d, hd⟩ := hg.head.2.2
+      have := C05.granted_lt_cap hstop hcap hd
+      omega
+
+/-- **the reported attempt count is exact**: when moreover the tree's lower bound is the same `n`, every error is
+retryable and the step has the policy configured, every `WorkflowFailedEvent` for `s` on the stream of every reachable
+state reports exactly `max(n,1)` attempts, and a non-negative elapsed time -/
+theorem C05_reported_attempts_exact (cfg : Cfg) (p : Nat → Composed) (u : Nat → Nat → Rat) (rd : Rat → Nat) (r0 : Runner)
+    (h0 : AcctInv cfg (C05.oracle p u rd) r0) (acts : List Act) (hs : AcctSched cfg (C05.oracle p u rd) r0 acts)
+    (s : Nat) (t : STree) (n : Nat) (hstop : (p s).stop = t.eval) (hcap : t.cap = some n) (hlo : t.lo = some n)
+    (hre : ∀ r, (p s).retry = some r → ∀ e, r e = true) (c : StepCfg) (hc : cfg.find s = some c) (hr : c.hasRetry = true)
+    (exc a : Nat) (el : Int) (hp : Pub.failed s exc a el ∈ (Runner.run cfg (C05.oracle p u rd) r0 acts).stream) :
+    a = max n 1 ∧ 0 ≤ el := by
+  have h := C05_accounting_invariant cfg (C05.oracle p u rd) r0 h0 acts hs
+  have h1 : FailRep cfg (C05.oracle p u rd) s exc a el := h.stream _ hp
+  have hle := (C05_budget_never_exceeded cfg p u rd r0 h0 acts hs s t n hstop hcap).2.2.2.2 exc a el hp
+  have hnone := C05.oracle_refused hc hr h1.2.2.1
+  rw [Policy.next_retryable _ _ _ _ _ (fun r hr' => hre r hr' exc)] at hnone
+  have hstopped : t.eval a (el : Rat) ((p s).wait a (u s a)) = true := by
+    rw [← hstop]
+    by_cases hs' : (p s).stop a (el : Rat) ((p s).wait a (u s a)) = true
+    · exact hs'
+    · simp [hs'] at hnone
+  obtain ⟨m, hm, hma⟩ := STree.lo_sound _ _ _ t hstopped
+  rw [hlo] at hm; injection hm with hm
+  have := h1.1
+  exact ⟨by omega, h1.2.1⟩
+
+/-- **a step without a retry policy is executed once per event**: in every reachable state its in-progress invocations run
+with retry number `0`, and a `WorkflowFailedEvent` for it reports one attempt -/
+theorem C05_no_policy_single_attempt (cfg : Cfg) (pol : Policy) (r0 : Runner) (h0 : AcctInv cfg pol r0) (acts : List Act)
+    (hs : AcctSched cfg pol r0 acts) (s : Nat) (hno : ∀ c, cfg.find s = some c → c.hasRetry = false) :
+    (∀ ip ∈ ((Runner.run cfg pol r0 acts).st.workers s).inProg, ip.attempts = 0) ∧
+    (∀ exc a el, Pub.failed s exc a el ∈ (Runner.run cfg pol r0 acts).stream → a = 1) := by
+  have h := C05_accounting_invariant cfg pol r0 h0 acts hs
+  have hnever : ∀ el k exc d, retryDecision cfg pol s el k exc ≠ .retry d := by
+    intro el k exc d hd
+    unfold retryDecision at hd
+    split at hd
+    · rename_i c hc; simp [hno c hc] at hd
+    · cases hd
+  constructor
+  · intro ip hip
+    apply Decidable.byContradiction
+    intro hk
+    obtain ⟨_, _, _, _, _, _, _, _, e6⟩ := ((h.st s).2.1 ip hip).2.2 hk
+    obtain ⟨d, hd⟩ := e6.head.2.2
+    exact hnever _ _ _ _ hd
+  · intro exc a el hp
+    have h1 : FailRep cfg pol s exc a el := h.stream _ hp
+    apply Decidable.byContradiction
+    intro ha
+    obtain ⟨_, _, _, hg⟩ := h1.2.2.2 ha
+    obtain ⟨d, hd⟩ := hg.head.2.2
+    exact hnever _ _ _ _ hd
+
+/-- **`stop_after_delay` over every history**: if the stop condition of `s` holds whenever `d` seconds have elapsed
+(a delay limit `d` anywhere on an `any`-path), every retry in every reachable state was granted while LESS than `d` seconds
+had elapsed between the first attempt and the failure it follows; if conversely the condition holds only then (and errors
+are retryable), a `WorkflowFailedEvent` is issued only once at least `d` seconds have elapsed -/
+theorem C05_delay_budget_reachable (cfg : Cfg) (p : Nat → Composed) (u : Nat → Nat → Rat) (rd : Rat → Nat) (r0 : Runner)
+    (h0 : AcctInv cfg (C05.oracle p u rd) r0) (acts : List Act) (hs : AcctSched cfg (C05.oracle p u rd) r0 acts)
+    (s : Nat) (d : Rat) :
+    ((∀ k el up, d ≤ el → (p s).stop k el up = true) →
+      ∀ ip ∈ ((Runner.run cfg (C05.oracle p u rd) r0 acts).st.workers s).inProg, ip.attempts ≠ 0 →
+        ∃ tf, ip.lastFailedAt = some tf ∧ ((tf - ip.firstAt : Int) : Rat) < d) ∧
+    ((∀ k el up, (p s).stop k el up = true → d ≤ el) → (∀ r, (p s).retry = some r → ∀ e, r e = true) →
+      ∀ c, cfg.find s = some c → c.hasRetry = true →
+      ∀ exc a el, Pub.failed s exc a el ∈ (Runner.run cfg (C05.oracle p u rd) r0 acts).stream → d ≤ (el : Rat)) := by
+  have h := C05_accounting_invariant cfg (C05.oracle p u rd) r0 h0 acts hs
+  constructor
+  · intro hd ip hip hk
+    obtain ⟨t0, tf, exc, e1, e2, _, _, _, e6⟩ := ((h.st s).2.1 ip hip).2.2 hk
+    simp only [InProg.acct, Option.some.injEq] at e1 e2 e6
+    subst e1
+    refine ⟨tf, e2, ?_⟩
+    obtain ⟨dd, hdd⟩ := e6.head.2.2
+    have hg := C05.oracle_granted hdd
+    apply Rat.not_le.mp
+    intro hle
+    rw [Policy.next_none_of_stop _ _ _ _ _ (hd _ _ _ hle)] at hg
+    cases hg
+  · intro hd hre c hc hr exc a el hp
+    have h1 : FailRep cfg (C05.oracle p u rd) s exc a el := h.stream _ hp
+    have hnone := C05.oracle_refused hc hr h1.2.2.1
+    rw [Policy.next_retryable _ _ _ _ _ (fun r hr' => hre r hr' exc)] at hnone
+    by_cases hs' : (p s).stop a (el : Rat) ((p s).wait a (u s a)) = true
+    · exact hd _ _ _ hs'
+    · simp [hs'] at hnone
+
+/-- **every `StepFailedEvent` the reducer ever creates is exact**: at a reachable state, whatever tick is processed, a
+failure routed to a `@catch_error` handler carries `attempts ≥ 1`, `elapsed ≥ 0`, was refused a retry by the step's policy at
+exactly `(elapsed, attempts, exception)`, and — unless it is the first failure — retry `attempts − 1` had been granted -/
+theorem C05_step_failed_event_exact (cfg : Cfg) (pol : Policy) (r0 : Runner) (h0 : AcctInv cfg pol r0) (acts : List Act)
+    (hs : AcctSched cfg pol r0 acts) (t : Tick) (rest : List Tick)
+    (hbuf : (Runner.run cfg pol r0 acts).buf = t :: rest) (att : Attempt) (h : Nat) (fi : FailInfo)
+    (hcmd : Cmd.queueEvent att (some h) none ∈
+      (reduce cfg pol t (Runner.run cfg pol r0 acts).st (Runner.run cfg pol r0 acts).now).2)
+    (hfi : att.ev.fail = some fi) :
+    FailRep cfg pol fi.step fi.exc fi.attempts fi.elapsed := by
+  have hinv := C05_accounting_invariant cfg pol r0 h0 acts hs
+  generalize Runner.run cfg pol r0 acts = r at hinv hbuf hcmd
+  have htick : TickOk cfg pol r.now r.st t := by
+    cases t with
+    | addEvent a tgt => exact hinv.buf (.addEvent a tgt) (by simp [hbuf])
+    | stepResult s w ev res => exact (hinv.sr s w ev res (by simp [hbuf])).2
+    | _ => trivial
+  exact ((reduce_acct cfg pol t r.st r.now hinv.now hinv.st htick).2 _ hcmd).2 h fi rfl rfl hfi
+
+/-! ### `retry_info()` in every reachable state -/
+
+/-- the `RetryAttempt` `run_worker` hands to the invocation of an in-progress entry
+(`retry_number=worker.attempts, first_attempt_at=worker.first_attempt_at, last_exception=…, last_failed_at=…`;
+pinned to the source by `GenRetryAcct.runWorkerRetryKwargs`) -/
+def C05.runWorkerAttempt (ip : InProg) : RetryAttempt :=
+  { retryNumber := ip.attempts, firstAt := ip.firstAt, lastExc := ip.lastExc, lastFailedAt := ip.lastFailedAt.map (fun t => (t : Rat)) }
+
+/-- **`retry_info()` of every invocation of every reachable state**, called at any later clock reading `now'`: the retry
+number is the record's, `elapsed_seconds` is `0` on the first attempt and exactly `now' − first_attempt_at` on a retry,
+`last_exception` / `last_failed_at` are the record's — and `retry_number = 0` iff there is no previous exception -/
+theorem C05_retry_info_reachable (cfg : Cfg) (pol : Policy) (r0 : Runner) (h0 : AcctInv cfg pol r0) (acts : List Act)
+    (hs : AcctSched cfg pol r0 acts) (s : Nat) (ip : InProg)
+    (hip : ip ∈ ((Runner.run cfg pol r0 acts).st.workers s).inProg) (now' : Rat)
+    (hnow : ((Runner.run cfg pol r0 acts).now : Rat) ≤ now') :
+    retryInfo (C05.runWorkerAttempt ip) now' =
+      { retryNumber := ip.attempts, elapsed := if ip.attempts = 0 then 0 else now' - (ip.firstAt : Rat),
+        lastExc := ip.lastExc, lastFailedAt := ip.lastFailedAt.map (fun t => (t : Rat)) } ∧
+    ((retryInfo (C05.runWorkerAttempt ip) now').retryNumber = 0 ↔ (retryInfo (C05.runWorkerAttempt ip) now').lastExc = none) := by
+  obtain ⟨hpos, hle, hz, hnz⟩ := C05_retry_records_wellformed cfg pol r0 h0 acts hs s ip hip
+  have hf0 : ¬ ((ip.firstAt : Rat) = 0) := by
+    rw [Rat.intCast_eq_zero_iff]; omega
+  have hfle : (ip.firstAt : Rat) ≤ now' := Rat.le_trans (Rat.intCast_le_intCast.mpr hle) hnow
+  constructor
+  · simp only [retryInfo, C05.runWorkerAttempt, RetryInfo.mk.injEq, true_and, and_true]
+    by_cases hk : ip.attempts = 0
+    · simp [hk]
+    · have hk' : ¬ ((ip.attempts : Int) ≤ 0) := by omega
+      simp only [hk', hf0, or_self, ↓reduceIte, hk]
+      grind
+  · simp only [retryInfo, C05.runWorkerAttempt]
+    constructor
+    · intro h0'
+      have : ip.attempts = 0 := by omega
+      exact (hz this).1
+    · intro hx
+      apply Decidable.byContradiction
+      intro hk
+      have hk' : ip.attempts ≠ 0 := by omega
+      obtain ⟨_, exc, _, _, e3, _⟩ := hnz hk'
+      rw [e3] at hx; cases hx
+
+/-! Non-vacuity (runner level): a step with `stop_after_attempt(2)`, two failing executions stamped on the runner's clock -/
+def C05.xcfg : Cfg := { steps := [{ name := 1, accepted := [0], numWorkers := 1, hasRetry := true }] }
+def C05.xp : Nat → Composed := fun _ => { retry := none, wait := waitFixed 0, stop := (STree.leaf (.afterAttempt 2)).eval }
+def C05.xpol : Engine.Policy := C05.oracle C05.xp (fun _ _ => 0) (fun _ => 0)
+def C05.xr0 : Runner := Runner.init C05.xcfg initState 5 (some { ty := 0, kind := .start, uid := 1 }) none
+def C05.xacts : List Act :=
+  [.drain, .workerDone 1 0 [.failed 7 5], .drain, .drain, .drain, .workerDone 1 0 [.failed 7 5], .drain]
+
+theorem C05.xinit : AcctInv C05.xcfg C05.xpol C05.xr0 := C05_accounting_init _ _ 5 (by decide) _ _
+
+theorem C05.xsched : AcctSched C05.xcfg C05.xpol C05.xr0 C05.xacts := by
+  refine ⟨trivial, ?_, trivial, trivial, trivial, ?_, trivial, trivial⟩
+  · intro exc t h
+    simp only [List.mem_singleton, Res.failed.injEq] at h
+    rw [h.2]; decide +kernel
+  · intro exc t h
+    simp only [List.mem_singleton, Res.failed.injEq] at h
+    rw [h.2]; decide +kernel
+
+-- after the first failure the retry is in progress with retry number 1, the first-attempt time and the exception …
+example : ((Runner.run C05.xcfg C05.xpol C05.xr0 (C05.xacts.take 4)).st.workers 1).inProg =
+    [{ ev := { ty := 0, kind := .start, uid := 1 }, wid := 0, snapEvents := [], snapWaiters := [],
+       attempts := 1, firstAt := 5, lastExc := some 7, lastFailedAt := some 5 }] := by decide +kernel
+-- … and after the second the run has failed with `attempts = 2`
+example : (Runner.run C05.xcfg C05.xpol C05.xr0 C05.xacts).stream.filter (fun p => match p with | .failed .. => true | _ => false)
+    = [.failed 1 7 2 0] := by decide +kernel
+example (exc a : Nat) (el : Int) (hp : Pub.failed 1 exc a el ∈ (Runner.run C05.xcfg C05.xpol C05.xr0 C05.xacts).stream) :
+    a = 2 ∧ 0 ≤ el := by
+  have := C05_reported_attempts_exact C05.xcfg C05.xp (fun _ _ => 0) (fun _ => 0) C05.xr0 C05.xinit C05.xacts C05.xsched 1
+    (.leaf (.afterAttempt 2)) 2 rfl (by decide +kernel) (by decide +kernel) (by intro r h; cases h) _ rfl rfl exc a el hp
+  simpa using this
+example : Policy.retryInfo { retryNumber := 2, firstAt := 10, lastExc := some 7, lastFailedAt := some 12 } 15 =
+    { retryNumber := 2, elapsed := 5, lastExc := some 7, lastFailedAt := some 12 } := by decide +kernel
+example : Policy.retryInfo { retryNumber := 0, firstAt := 10 } 15 = { retryNumber := 0, elapsed := 0, lastExc := none, lastFailedAt := none } := by
+  decide +kernel
+
+/-! ## where the accounting fields are written, as the source has it (`harness/gen/retry_acct.py`) -/
+
+/-- every place of the source that writes `attempts` / `first_attempt_at` / `last_exception` / `last_failed_at`, the failure
+count and elapsed expressions, what the failure events report, the two clock sources and `retry_info()`, as the model has
+them (`applyRes`, `addOrEnqueue`, `newWaiter`, `Waiter.replay`, `inProgToAttempt`, `execCmd`, `C05.runWorkerAttempt`,
+`Policy.retryInfo`) -/
+theorem C05_accounting_source_shape :
+    -- `retry_policy.next(elapsed, failures, exception)` (names of locals erased, single-assignment locals inlined)
+    GenRetryAcct.policyNextArgs = ["_.failed_at - _.first_attempt_at", "_.attempts + 1", "_.exception"] ∧
+    GenRetryAcct.retryQueueKwargs = [("event", "_.event"), ("step_name", "_.step_name"), ("attempts", "_.attempts + 1"),
+      ("first_attempt_at", "_.first_attempt_at"), ("last_exception", "_.exception"), ("last_failed_at", "_.failed_at")] ∧
+    -- a returned event and a `StepFailedEvent` for its handler start fresh records
+    GenRetryAcct.otherQueueAcctKwargs = [[], []] ∧
+    GenRetryAcct.stepFailedKwargs = [("attempts", "_.attempts + 1"), ("elapsed_seconds", "_.failed_at - _.first_attempt_at")] ∧
+    GenRetryAcct.workflowFailedKwargs = [("attempts", "_.attempts + 1"), ("elapsed_seconds", "_.failed_at - _.first_attempt_at")] ∧
+    GenRetryAcct.newWaiterKwargs = [("attempts", "_.attempts"), ("first_attempt_at", "_.first_attempt_at"),
+      ("last_exception", "_.last_exception"), ("last_failed_at", "_.last_failed_at")] ∧
+    GenRetryAcct.replayKwargs = [("attempts", "_.attempts"), ("first_attempt_at", "_.first_attempt_at"),
+      ("last_exception", "_.last_exception"), ("last_failed_at", "_.last_failed_at")] ∧
+    -- the only other `EventAttempt` is the one `_process_add_event_tick` rebuilds from the tick it processes
+    GenRetryAcct.otherEventAttempts = ["_process_add_event_tick:attempts=_.attempts,first_attempt_at=_.first_attempt_at,last_exception=_.last_exception,last_failed_at=_.last_failed_at"] ∧
+    GenRetryAcct.rewindKwargs = [("attempts", "_.attempts"), ("first_attempt_at", "_.first_attempt_at"),
+      ("last_exception", "_.last_exception"), ("last_failed_at", "_.last_failed_at")] ∧
+    GenRetryAcct.admitKwargs = [("attempts", "_.attempts or 0"), ("first_attempt_at", "_.first_attempt_at or _"),
+      ("last_exception", "_.last_exception"), ("last_failed_at", "_.last_failed_at")] ∧
+    GenRetryAcct.runWorkerRetryKwargs = [("retry_number", "_.attempts"), ("first_attempt_at", "_.first_attempt_at"),
+      ("last_exception", "_.last_exception"), ("last_failed_at", "_.last_failed_at")] ∧
+    GenRetryAcct.queueTickKwargs = [("attempts", "_.attempts"), ("first_attempt_at", "_.first_attempt_at"),
+      ("last_exception", "_.last_exception"), ("last_failed_at", "_.last_failed_at")] ∧
+    -- one clock: failures are stamped with `time.time()` (step wrapper) or the adapter's `get_now()`, which on BasicRuntime is `time.time()`
+    GenRetryAcct.loopFailedAt = [("failed_at", "await _.adapter.get_now()")] ∧
+    GenRetryAcct.wrapperFailedAt = [[("failed_at", "time.time()")]] ∧
+    GenRetryAcct.basicGetNow = "return time.time()" ∧
+    GenRetryAcct.retryInfoZeroCond = "_.retry.retry_number <= 0 or not _.retry.first_attempt_at" ∧
+    GenRetryAcct.retryInfoElapsed = ["0.0", "max(0.0, time.time() - _.retry.first_attempt_at)"] ∧
+    GenRetryAcct.retryInfoKwargs = [("retry_number", "_.retry.retry_number"), ("last_exception", "_.retry.last_exception")] := by
+  refine ⟨rfl, rfl, rfl, rfl, rfl, rfl, rfl, rfl, rfl, rfl, rfl, rfl, rfl, rfl, rfl, rfl, rfl, rfl⟩
+
+/-! ## one failed execution, one successor
+
+A result list may leave its execution in progress (stale `collect_events` snapshot: re-run at once, same retry number) and it
+may queue a retry (a granted `StepWorkerFailed`: run again later, retry number + 1).  Doing BOTH continues one invocation
+twice: with `stop_after_attempt(n)` the input event then runs far beyond `n` times while the failure report still says `n`.
+The unchanged code did this for `[AddCollectedEvent (stale), StepWorkerFailed]` — a collecting step with a retry policy that
+raises after its `collect_events` call while another worker has added to the buffer
+(`harness/corpus/c05_collect_rerun_forks_retry.json`; repaired: the failure of an execution already scheduled to run again is
+skipped).  The reducer before the repair is `applyResForks` / `Runner.runForks` (`WfProofs/EngineForkUnrepaired.lean`). -/
+
+/-- after the result list of a tick the execution is scheduled to run again at once AND a retry of it is queued; `ap` is the
+reducer's per-result function (`applyRes cfg pol`, or the one before the repair) -/
+def C05.forksWith (ap : Nat → Ev → Bool → ResAcc → Res → ResAcc) (step : Nat) (tickEv : Ev) (res : List Res) (st : State)
+    (exec : InProg) : Prop :=
+  (res.foldl (ap step tickEv (res.any isResult)) { st := st, exec := exec }).stillInProgress = true ∧
+  (res.foldl (ap step tickEv (res.any isResult)) { st := st, exec := exec }).cmds.any Cmd.isRetry = true
+
+def C05.forks (cfg : Cfg) (pol : Policy) (step : Nat) (tickEv : Ev) (res : List Res) (st : State) (exec : InProg) : Prop :=
+  C05.forksWith (applyRes cfg pol) step tickEv res st exec
+
+/-- **full statement** (for a reducer `ap`): on every result list in which nothing is collected after a failure — the step
+wrapper appends the `StepWorkerFailed` last (`GenRetryAcct.wrapperAppendsAfterFailure = []`) — a failed execution has ONE
+successor: the re-run or the retry, never both -/
+def C05_statement_failed_execution_one_successor (ap : Cfg → Policy → Nat → Ev → Bool → ResAcc → Res → ResAcc) : Prop :=
+  ∀ (cfg : Cfg) (pol : Policy) (step : Nat) (tickEv : Ev) (res : List Res) (st : State) (exec : InProg),
+    collectAfterFailure res = false → ¬ C05.forksWith (ap cfg pol) step tickEv res st exec
+
+/-- **the reducer (repaired) satisfies it**, for every configuration, policy, state and result list -/
+theorem C05_failed_execution_one_successor : C05_statement_failed_execution_one_successor applyRes := by
+  intro cfg pol step tickEv res st exec hlast
+  exact foldl_applyRes_noFork cfg pol step tickEv _ res { st := st, exec := exec } hlast (by intro h; simp at h)
+
+/-- what the source must look like for that: the `StepWorkerFailed` branch starts with the guard, and the step wrapper appends
+nothing to its result list after the failure -/
+theorem C05_one_successor_source_shape :
+    GenRetryAcct.failureSkippedAfterRerun = true ∧ GenRetryAcct.wrapperAppendsAfterFailure = [] := ⟨rfl, rfl⟩
+
+def C05.fcfg : Cfg := { steps := [{ name := 1, accepted := [5], numWorkers := 2, hasRetry := true }] }
+def C05.fa : Ev := { ty := 5, kind := .plain, uid := 1 }
+def C05.fb : Ev := { ty := 5, kind := .plain, uid := 2 }
+/-- `b` runs on an empty snapshot while `a` has meanwhile been collected into buffer 0 -/
+def C05.fst : State :=
+  { isRunning := true,
+    workers := fun s => if s = 1 then
+      { inProg := [{ ev := C05.fb, wid := 1, snapEvents := [], snapWaiters := [], attempts := 0, firstAt := 5 }],
+        collected := [(0, [C05.fa])] } else {} }
+def C05.fexec : InProg := { ev := C05.fb, wid := 1, snapEvents := [], snapWaiters := [], attempts := 0, firstAt := 5 }
+
+/-- **the reducer before the repair: refuted** — `[AddCollectedEvent (stale snapshot), StepWorkerFailed]` is re-run AND retried -/
+theorem C05_refuted_failed_execution_one_successor_unrepaired :
+    ¬ C05_statement_failed_execution_one_successor applyResForks := by
+  intro h
+  exact h C05.fcfg C05.xpol 1 C05.fb [.addCollected 0 C05.fb, .failed 7 5] C05.fst C05.fexec (by decide)
+    ⟨by decide +kernel, by decide +kernel⟩
+
+-- the same tick on the repaired reducer: re-run only
+example : ¬ C05.forks C05.fcfg C05.xpol 1 C05.fb [.addCollected 0 C05.fb, .failed 7 5] C05.fst C05.fexec :=
+  C05_failed_execution_one_successor C05.fcfg C05.xpol 1 C05.fb _ C05.fst C05.fexec (by decide)
+example : ([.addCollected 0 C05.fb, .failed 7 5].foldl (applyRes C05.fcfg C05.xpol 1 C05.fb false) { st := C05.fst, exec := C05.fexec }).cmds
+    = [.runWorker 1 C05.fb 1] := by decide +kernel
+-- the hypothesis is needed: a list that collects AFTER its failure (which no step wrapper returns) still does both
+example : C05.forks C05.fcfg C05.xpol 1 C05.fb [.failed 7 5, .addCollected 0 C05.fb] C05.fst C05.fexec :=
+  ⟨by decide +kernel, by decide +kernel⟩
+
+/-- **guarded form that does not look at the order** (the list does not carry both an `AddCollectedEvent` and a
+`StepWorkerFailed`) -/
+theorem C05_failed_execution_one_successor_partial (cfg : Cfg) (pol : Policy) (step : Nat) (tickEv : Ev) (res : List Res)
+    (st : State) (exec : InProg)
+    (hg : res.all (fun r => !isAddCollected r) = true ∨ res.all (fun r => !isFailed r) = true) :
+    ¬ C05.forks cfg pol step tickEv res st exec := by
+  intro ⟨h1, h2⟩
+  rcases hg with hg | hg
+  · rw [foldl_applyRes_still cfg pol step tickEv _ res _ hg] at h1; cases h1
+  · rw [foldl_applyRes_noRetry cfg pol step tickEv _ res _ hg (by simp)] at h2; cases h2
+
+/-- **a failure after a scheduled re-run is skipped**: no command, no state change, the record untouched -/
+theorem C05_failure_after_scheduled_rerun_skipped (cfg : Cfg) (pol : Policy) (step : Nat) (tickEv : Ev) (dc : Bool)
+    (acc : ResAcc) (exc : Nat) (failedAt : Int) (h : acc.stillInProgress = true) :
+    applyRes cfg pol step tickEv dc acc (.failed exc failedAt) = acc :=
+  applyRes_failed_still cfg pol step tickEv dc acc exc failedAt h
+
+/-! the consequence over a whole run, `stop_after_attempt(2)`: how often retry number 1 of one input event is delivered -/
+
+/-- retries of the input event `ev` of step `s` with retry number `k` that the runner handed to the reducer -/
+def C05.retryDeliveries (r : Runner) (s : Nat) (ev : Ev) (k : Nat) : Nat :=
+  (r.log.filter (fun p => match p.1 with
+    | .addEvent att (some s') => s' == s && att.ev == ev && att.attempts == some k
+    | _ => false)).length
+
+def C05.fr0 : Runner := Runner.init C05.fcfg initState 5 none none
+def C05.facts : List Act :=
+  [.external (.addEvent { ev := C05.fa } none), .external (.addEvent { ev := C05.fb } none),
+   .pull, .drain, .pull, .drain,
+   .workerDone 1 0 [.addCollected 0 C05.fa], .drain,
+   .workerDone 1 1 [.addCollected 0 C05.fb, .failed 7 5], .drain,   -- stale: `b` is run again on worker 1 (before the repair: AND retry 1 queued)
+   .drain,                                                           -- (before the repair: the retry starts on worker 0, `b` runs twice at once)
+   .workerDone 1 1 [.failed 7 5], .drain,                            -- the re-run fails: retry 1 queued (before the repair: a second time)
+   .drain,
+   .workerDone 1 0 [.failed 7 5], .drain]                            -- retry 1 fails: budget exhausted, the run fails
+
+theorem C05.fsched : AcctSched C05.fcfg C05.xpol C05.fr0 C05.facts := by
+  have hw : ∀ (r : Runner) (res : List Res), r.now = 5 → (∀ exc t, Res.failed exc t ∈ res → t = 5) →
+      ∀ exc t, Res.failed exc t ∈ res → t = r.now := fun r res h1 h2 exc t h => by rw [h1]; exact h2 exc t h
+  refine ⟨tickRec_fresh _ _ _ _ _ _, tickRec_fresh _ _ _ _ _ _, trivial, trivial, trivial, trivial, ?_, trivial, ?_, trivial,
+    trivial, ?_, trivial, trivial, ?_, trivial, trivial⟩
+  · exact hw _ _ (by decide +kernel) (by intro exc t h; simp at h)
+  · exact hw _ _ (by decide +kernel) (by intro exc t h; simp at h; exact h.2)
+  · exact hw _ _ (by decide +kernel) (by intro exc t h; simp at h; exact h.2)
+  · exact hw _ _ (by decide +kernel) (by intro exc t h; simp at h; exact h.2)
+
+/-- **before the repair**: on this schedule (each event delivered once, failures stamped on the clock) retry number 1 of `b`
+is delivered TWICE under `stop_after_attempt(2)`, `b` is executed four times, and the failure report says `attempts = 2` -/
+theorem C05_fork_run_exceeds_budget_unrepaired :
+    (STree.leaf (.afterAttempt 2)).cap = some 2 ∧
+    C05.retryDeliveries (Runner.runForks C05.fcfg C05.xpol C05.fr0 C05.facts) 1 C05.fb 1 = 2 ∧
+    (Runner.runForks C05.fcfg C05.xpol C05.fr0 C05.facts).stream.filter (fun p => match p with | .failed .. => true | _ => false)
+      = [.failed 1 7 2 0] ∧
+    (Runner.runForks C05.fcfg C05.xpol C05.fr0 C05.facts).outcome = some (.failed 1 7) :=
+  ⟨by decide +kernel, by decide +kernel, by decide +kernel, by decide +kernel⟩
+
+/-- **the reducer as it is**: the same schedule is admissible, retry number 1 of `b` is delivered once, and the run ends with
+the same report -/
+theorem C05_fork_run_within_budget :
+    AcctSched C05.fcfg C05.xpol C05.fr0 C05.facts ∧
+    C05.retryDeliveries (Runner.run C05.fcfg C05.xpol C05.fr0 C05.facts) 1 C05.fb 1 = 1 ∧
+    (Runner.run C05.fcfg C05.xpol C05.fr0 C05.facts).stream.filter (fun p => match p with | .failed .. => true | _ => false)
+      = [.failed 1 7 2 0] ∧
+    (Runner.run C05.fcfg C05.xpol C05.fr0 C05.facts).outcome = some (.failed 1 7) :=
+  ⟨C05.fsched, by decide +kernel, by decide +kernel, by decide +kernel⟩
